@@ -53,21 +53,26 @@ pub fn quiet_panics() {
 pub mod dic_ops;
 pub mod kana_ops;
 pub mod trie_ops;
+pub mod kkc_ops;
 
 /// Mutable state of the implementation driver.
 pub struct State {
     pub trie: trie_ops::TrieState,
+    pub kkc: kkc_ops::KkcState,
 }
 
 impl State {
     pub fn new() -> Self {
-        State { trie: trie_ops::TrieState::new() }
+        State { trie: trie_ops::TrieState::new(), kkc: kkc_ops::KkcState::new() }
     }
 }
 
 /// Dispatch one request to the module that knows the operation.
 pub fn handle(st: &mut State, op: &str, arg: &str) -> Option<String> {
     if let Some(r) = trie_ops::handle(&mut st.trie, op, arg) {
+        return Some(r);
+    }
+    if let Some(r) = kkc_ops::handle(&mut st.kkc, op, arg) {
         return Some(r);
     }
     dic_ops::handle(op, arg).or_else(|| kana_ops::handle(op, arg))
